@@ -18,7 +18,7 @@ import numpy
 from .common import check
 from .gen import rand_poly, nested, count
 from .model import build, spec_model, from_ndpoly, same, describe
-from .wf import wf
+from .wf import wf, double_through_a_view
 
 NAMES = ("q0", "q1", "q2", "q10")
 TXT_SHAPES = [(), (1,), (3,), (1, 1), (2, 3), (2, 1, 2)]
@@ -198,6 +198,20 @@ def repro_check(inp):
     r = reproduced(p, q, spec_model(spec), canonical, inp["how"]) or (usable(p, q, inp["how"]) if p.size else None)
     if r is None and numpy.ndarray.view(p, numpy.ndarray).tobytes() != raw_before:
         return f"{inp['how']}: the original was modified"
+    if r is None and p.size and numpy.dtype(spec.get("dtype", "int64")).kind in "if" and not inp.get("prep"):
+        # reproduce the SAME object once more after every coefficient was doubled in place through a view of its memory: the copy
+        # holds what the array holds now (nothing remembered from the first time)
+        double_through_a_view(p)
+        m = spec_model(spec)
+        m2 = numpy.empty(m.size, dtype=object)
+        for k, cell in enumerate(m.reshape(-1)):
+            m2[k] = cell + cell
+        with warnings.catch_warnings():
+            warnings.simplefilter("ignore")
+            q2 = _reproduce(p, inp["how"])
+        if not isinstance(q2, numpoly.ndpoly) or tuple(q2.shape) != tuple(p.shape) or not same(from_ndpoly(q2), m2.reshape(m.shape)):
+            return (f"{inp['how']} of the same object, repeated after its coefficients were doubled in place through the view p.T: "
+                    f"restored {describe(from_ndpoly(q2)) if isinstance(q2, numpoly.ndpoly) else type(q2).__name__}, the array holds {describe(m2.reshape(m.shape))}")
     return r
 
 
@@ -207,7 +221,8 @@ check("C13", "pickle_copy.exact", gen_repro, functions=("numpoly.ndpoly.__reduce
            "dtype, names, exponents, coefficients identical; inputs storing all-zero terms (1 of 3, 1 of 4, 2 of 5, 1 of 2, 3 of 4, 3 of 6 "
            "terms zero via retain_coefficients=True, or the first result of align_polynomials/align_exponents against a second polynomial): "
            "same except that all-zero terms may be dropped; the restored object must be usable (.coefficients/.exponents/.keys of equal "
-           "length, repr, == original all True)")(repro_check)
+           "length, repr, == original all True); integer / float inputs are reproduced a second time after every coefficient was doubled in "
+           "place through a view (the second copy holds the current contents)")(repro_check)
 check("C13", "pickle_copy.size0", gen_repro0, functions=("numpoly.ndpoly.__reduce__", "numpoly.polynomial_from_attributes", "numpoly.ndpoly.copy"),
       note="bounded: shapes (0,), (0,3), (2,0) with int64/float64/complex128, 1-2 terms, all reproduction routes")(repro_check)
 
